@@ -45,6 +45,29 @@ STRENGTHENED = {
  'C18-D': 'missed at first: slow asynchronous sinks now saturate the sink pool in front of the panicking sink, the panicking sink panics on every third call, and counting/global survival batches are owed every result',
  'C19-D': 'missed at first: added refill configurations (8-16 producers, thousands of one-slot expansions from below the trigger threshold)',
  'C20-D': 'missed at first (solo baseline ran in the same process): added case-twin instances checked against a direct reference (`c20case`)',
+ 'C01-E': 'missed at first: added rows in the last millisecond of a window with the watermark resting exactly there (evTimestamps "boundary")',
+ 'C02-E': 'missed at first: added `genC02LateOlderSession` (late row for the older of two fired sessions of one key)',
+ 'C02-F': 'missed at first: added allowances shorter than the window together with rows exactly on window boundaries',
+ 'C06-F': 'missed at first (text operand left the value open): a NULL operand now pins arithmetic to NULL whatever the other operand is',
+ 'C07-F': 'missed at first: added a HAVING that consists of one CASE comparison (`CASE WHEN <atom> THEN 1 ELSE 0 END = 1`)',
+ 'C08-E': 'missed at first: same last-millisecond rows as C01-E',
+ 'C08-F': 'missed by C08 (which runs with ALLOWEDLATENESS 0): caught by C02 after its late stream got a completeness clause (`late.on_time_row_lost`), burst feeds and frequent delays at the `*.late.unlocked` yield points - which also exposed the sliding late-update eviction race repaired in 7cb9e7e',
+ 'C09-E': 'missed at first: added a monitoring loop (GetStats / ResetStats every few rows)',
+ 'C09-F': 'missed at first: added the stream `c09mixed` (one key in several dynamic types; only what holds under either reading is checked)',
+ 'C10-E': 'missed at first: added back-pressure session cases `c10bp` (window output buffer 1, slow sink, dense burst, then quiet)',
+ 'C11-E': 'missed at first: added a second JOIN clause to the join family',
+ 'C11-F': 'missed at first: added literals that contain the other quote character followed by an opening parenthesis',
+ 'C12-E': 'missed at first: added unparenthesised chains mixing AND and OR',
+ 'C12-F': 'missed at first: added double-quoted literals with escapes at the package boundary',
+ 'C14-E': 'missed at first: added the stream `c14nested` (PARTITION BY a nested path, same-named top-level column)',
+ 'C14-F': 'missed at first: change detection over arrays / objects in `c14nested`',
+ 'C16-E': 'missed at first: stream rows may carry a top-level field named like the table qualifier',
+ 'C17-E': 'missed at first: added the stream `c17nested` (selected and trigger aggregates over nested paths with the same last segment)',
+ 'C17-F': 'missed at first: added the stream `c17ttl` (an active group under STATETTL must not be reaped)',
+ 'C18-E': 'missed at first: added MATCH_RECOGNIZE survival batches whose DEFINE calls a panicking row function',
+ 'C18-F': 'missed at first: the analytic query now has an item with an OVER (... WHEN ...) gate; the race detector reports it',
+ 'C20-E': 'missed at first: added the query kind `merge_objects` (merge_agg / first_value / last_value over nested objects)',
+ 'C20-F': 'missed at first: added type-twin instances checked against a direct reference (`c20types`)',
 }
 rows = []
 n = caught = 0
@@ -88,7 +111,7 @@ new7 = '''## 7. Trusting the monitors: seeded changes
    worktree, and asked for two realistic changes (A, B) that break the property while the library still compiles
    and its suite still passes, each needing something specific to manifest, with a demonstration test.  A second
    round of fresh sub-agents (again only the property text, plus the one-line titles of A and B so as not to
-   repeat them) produced two more per property (C, D).  Each
+   repeat them) produced two more per property (C, D), and a third round two more (E, F).  Each
    change was kept only after it was confirmed here (`tools/seedcheck.py`, scratch worktree of /repo HEAD): the
    patch applies and builds, the demonstration FAILS with it and PASSES without it, the unedited suite passes
    with it; then the property's quick check was run against the patched tree (a scratch copy of /verif whose
